@@ -3,4 +3,597 @@ import DswModel.Lemmas.Defs
 /-! Helper lemmas about k-mers, vertex indices and de Bruijn sub-tables (C13). -/
 namespace Dsw
 
+/-! ## nucleotides -/
+
+theorem nucIdx_nucChar (j : Nat) (hj : j < 4) : nucIdx (nucChar j) = some j := by
+  have : j = 0 ∨ j = 1 ∨ j = 2 ∨ j = 3 := by omega
+  rcases this with h | h | h | h <;> subst h <;> decide
+
+theorem nucIdx_lt {c : Char} {j : Nat} (h : nucIdx c = some j) : j < 4 := by
+  unfold nucIdx at h
+  split at h
+  · cases h; omega
+  · split at h
+    · cases h; omega
+    · split at h
+      · cases h; omega
+      · split at h
+        · cases h; omega
+        · cases h
+
+theorem nucChar_nucIdx {c : Char} {j : Nat} (h : nucIdx c = some j) : nucChar j = c := by
+  unfold nucIdx at h
+  split at h
+  · cases h; subst_vars; rfl
+  · split at h
+    · cases h; subst_vars; rfl
+    · split at h
+      · cases h; subst_vars; rfl
+      · split at h
+        · cases h; subst_vars; rfl
+        · cases h
+
+theorem nucIdx_getD_lt (c : Char) : (nucIdx c).getD 0 < 4 := by
+  cases h : nucIdx c with
+  | none => simp
+  | some j => simpa using nucIdx_lt h
+
+theorem nucChar_nucIdx_getD {c : Char} (h : (nucIdx c).isSome = true) :
+    nucChar ((nucIdx c).getD 0) = c := by
+  cases h' : nucIdx c with
+  | none => simp [h'] at h
+  | some j => simpa using nucChar_nucIdx h'
+
+theorem acgt_map_nucIdx :
+    "ACGT".toList.map (fun c => (nucIdx c).getD 0) = List.range 4 := by decide
+
+theorem acgt_map_comp {β} (g : Nat → β) :
+    "ACGT".toList.map (fun c => g ((nucIdx c).getD 0)) = (List.range 4).map g := by
+  rw [← acgt_map_nucIdx, List.map_map]; rfl
+
+/-! ## powers of four -/
+
+theorem four_pow_pos (k : Nat) : 0 < 4 ^ k := Nat.pow_pos (by omega)
+
+theorem four_pow_succ (k : Nat) : 4 ^ (k + 1) = 4 * 4 ^ k := by
+  rw [Nat.pow_succ, Nat.mul_comm]
+
+/-- the `j`-th shift successor, split at the leading digit. -/
+theorem shift_mod (P v j : Nat) (hj : j < 4) : (v * 4 + j) % (4 * P) = (v % P) * 4 + j := by
+  rw [Nat.mod_mul]
+  have h1 : (v * 4 + j) % 4 = j := by omega
+  have h2 : (v * 4 + j) / 4 = v := by omega
+  rw [h1, h2]; omega
+
+theorem log4_four_pow (k : Nat) : log4 (4 ^ k) = k := by
+  unfold log4
+  have : (4 : Nat) ^ k = 2 ^ (2 * k) := by
+    rw [Nat.pow_mul]
+  rw [this, Nat.log2_two_pow]
+  omega
+
+/-! ## `kmerIdx` -/
+
+theorem kmerIdx_nil : kmerIdx [] = 0 := rfl
+
+theorem kmerIdx_foldl (s : List Char) (a : Nat) :
+    s.foldl (fun n c => n * 4 + (nucIdx c).getD 0) a = a * 4 ^ s.length + kmerIdx s := by
+  unfold kmerIdx
+  induction s generalizing a with
+  | nil => simp
+  | cons x xs ih =>
+    simp only [List.foldl_cons, List.length_cons]
+    rw [ih (a * 4 + _), ih (0 * 4 + _)]
+    simp [Nat.pow_succ, Nat.add_mul, Nat.mul_assoc, Nat.mul_comm 4, Nat.add_assoc]
+
+theorem kmerIdx_append (s t : List Char) :
+    kmerIdx (s ++ t) = kmerIdx s * 4 ^ t.length + kmerIdx t := by
+  conv => lhs; unfold kmerIdx
+  rw [List.foldl_append, kmerIdx_foldl]
+  rfl
+
+theorem kmerIdx_snoc (s : List Char) (c : Char) :
+    kmerIdx (s ++ [c]) = kmerIdx s * 4 + (nucIdx c).getD 0 := by
+  rw [kmerIdx_append]; simp [kmerIdx]
+
+theorem kmerIdx_cons (c : Char) (s : List Char) :
+    kmerIdx (c :: s) = (nucIdx c).getD 0 * 4 ^ s.length + kmerIdx s := by
+  have := kmerIdx_append [c] s
+  simpa [kmerIdx] using this
+
+theorem kmerIdx_lt (s : List Char) : kmerIdx s < 4 ^ s.length := by
+  induction s with
+  | nil => simp [kmerIdx]
+  | cons c s ih =>
+    rw [kmerIdx_cons]
+    have hc := nucIdx_getD_lt c
+    have : (nucIdx c).getD 0 * 4 ^ s.length ≤ 3 * 4 ^ s.length := Nat.mul_le_mul_right _ (by omega)
+    simp only [List.length_cons, four_pow_succ]
+    omega
+
+theorem kmerIdx_replicate_A (n : Nat) : kmerIdx (List.replicate n 'A') = 0 := by
+  induction n with
+  | zero => rfl
+  | succ n ih =>
+    rw [List.replicate_succ, kmerIdx_cons, ih]
+    simp [nucIdx]
+
+/-! ## `digitsNat`, `padDna`, `kmerOf` -/
+
+theorem digitsNat_zero (b : Nat) (acc : List Nat) : digitsNat b 0 acc = acc := by
+  rw [digitsNat]; simp
+
+theorem digitsNat_four_pos (n : Nat) (hn : n ≠ 0) (acc : List Nat) :
+    digitsNat 4 n acc = digitsNat 4 (n / 4) (n % 4 :: acc) := by
+  rw [digitsNat]; simp [hn]
+
+theorem digitsNat_four_acc (n : Nat) (acc : List Nat) :
+    digitsNat 4 n acc = digitsNat 4 n [] ++ acc := by
+  induction n using Nat.strongRecOn generalizing acc with
+  | _ n ih =>
+    by_cases hn : n = 0
+    · subst hn; simp [digitsNat_zero]
+    · rw [digitsNat_four_pos n hn, digitsNat_four_pos n hn []]
+      rw [ih (n / 4) (by omega) (n % 4 :: acc), ih (n / 4) (by omega) [n % 4]]
+      simp
+
+theorem digitsNat_four_step (v d : Nat) (hd : d < 4) (h : v * 4 + d ≠ 0) :
+    digitsNat 4 (v * 4 + d) [] = digitsNat 4 v [] ++ [d] := by
+  rw [digitsNat_four_pos _ h]
+  have h1 : (v * 4 + d) / 4 = v := by omega
+  have h2 : (v * 4 + d) % 4 = d := by omega
+  rw [h1, h2, digitsNat_four_acc]
+
+theorem digitsNat_four_length_le (k v : Nat) (h : v < 4 ^ k) : (digitsNat 4 v []).length ≤ k := by
+  induction k generalizing v with
+  | zero =>
+    have : v = 0 := by simpa using h
+    subst this; simp [digitsNat_zero]
+  | succ k ih =>
+    by_cases hv : v = 0
+    · subst hv; simp [digitsNat_zero]
+    · have hv' : v = (v / 4) * 4 + v % 4 := by omega
+      rw [hv', digitsNat_four_step _ _ (by omega) (by omega)]
+      rw [four_pow_succ] at h
+      have := ih (v / 4) (by omega)
+      simp; omega
+
+theorem kmerOf_zero (k : Nat) : kmerOf k 0 = List.replicate k 'A' := by
+  simp [kmerOf, numberToDnaInt, padDna, digitsNat_zero]
+
+/-- the key recursion: appending a base-4 digit appends a nucleotide. -/
+theorem kmerOf_succ (k v d : Nat) (hd : d < 4) (hv : v < 4 ^ k) :
+    kmerOf (k + 1) (v * 4 + d) = kmerOf k v ++ [nucChar d] := by
+  by_cases h : v * 4 + d = 0
+  · have hv0 : v = 0 := by omega
+    have hd0 : d = 0 := by omega
+    subst hv0 hd0
+    simp only [Nat.zero_mul, Nat.add_zero, kmerOf_zero]
+    rw [List.replicate_succ']; rfl
+  · have hl := digitsNat_four_length_le k v hv
+    simp only [kmerOf, numberToDnaInt, padDna]
+    rw [digitsNat_four_step v d hd h]
+    simp only [List.length_append, List.length_singleton, List.map_append, List.map_cons,
+      List.map_nil, List.append_assoc]
+    congr 2
+    omega
+
+theorem kmerOf_succ' (k v : Nat) (hv : v < 4 ^ (k + 1)) :
+    kmerOf (k + 1) v = kmerOf k (v / 4) ++ [nucChar (v % 4)] := by
+  rw [four_pow_succ] at hv
+  have h := kmerOf_succ k (v / 4) (v % 4) (by omega) (by omega)
+  have hv' : (v / 4) * 4 + v % 4 = v := by omega
+  rwa [hv'] at h
+
+theorem kmerOf_length (k v : Nat) (h : v < 4 ^ k) : (kmerOf k v).length = k := by
+  induction k generalizing v with
+  | zero =>
+    have : v = 0 := by simpa using h
+    subst this; simp [kmerOf_zero]
+  | succ k ih =>
+    rw [kmerOf_succ' k v h]
+    rw [four_pow_succ] at h
+    simp [ih (v / 4) (by omega)]
+
+theorem kmerOf_acgt (k v : Nat) (h : v < 4 ^ k) : IsAcgt (kmerOf k v) := by
+  induction k generalizing v with
+  | zero =>
+    have : v = 0 := by simpa using h
+    subst this; simp [kmerOf_zero, IsAcgt]
+  | succ k ih =>
+    rw [kmerOf_succ' k v h]
+    rw [four_pow_succ] at h
+    intro c hc
+    rcases List.mem_append.1 hc with hc | hc
+    · exact ih (v / 4) (by omega) c hc
+    · have : c = nucChar (v % 4) := by simpa using hc
+      subst this
+      rw [nucIdx_nucChar _ (by omega)]; rfl
+
+theorem kmerIdx_kmerOf (k v : Nat) (h : v < 4 ^ k) : kmerIdx (kmerOf k v) = v := by
+  induction k generalizing v with
+  | zero =>
+    have : v = 0 := by simpa using h
+    subst this; simp [kmerOf_zero, kmerIdx]
+  | succ k ih =>
+    rw [kmerOf_succ' k v h, kmerIdx_snoc]
+    rw [four_pow_succ] at h
+    rw [ih (v / 4) (by omega), nucIdx_nucChar _ (by omega)]
+    simp; omega
+
+theorem kmerOf_kmerIdx_aux (n : Nat) :
+    ∀ s : List Char, s.length = n → IsAcgt s → kmerOf s.length (kmerIdx s) = s := by
+  induction n with
+  | zero =>
+    intro s hl _
+    have : s = [] := List.eq_nil_of_length_eq_zero hl
+    subst this; simp [kmerIdx, kmerOf_zero]
+  | succ n ih =>
+    intro s hl hs
+    rcases List.eq_nil_or_concat s with h | ⟨s', c, h⟩
+    · subst h; simp at hl
+    · rw [List.concat_eq_append] at h
+      subst h
+      have hl' : s'.length = n := by simpa using hl
+      have hs' : IsAcgt s' := fun x hx => hs x (by simp [hx])
+      have hc : (nucIdx c).isSome = true := hs c (by simp)
+      rw [kmerIdx_snoc, List.length_append, List.length_singleton,
+        kmerOf_succ _ _ _ (nucIdx_getD_lt c) (kmerIdx_lt s'), ih s' hl' hs', nucChar_nucIdx_getD hc]
+
+theorem kmerOf_kmerIdx (s : List Char) (hs : IsAcgt s) : kmerOf s.length (kmerIdx s) = s :=
+  kmerOf_kmerIdx_aux s.length s rfl hs
+
+theorem nucValues_acgt (s : List Char) (hs : IsAcgt s) :
+    nucValues s = .ok (s.map fun c => (nucIdx c).getD 0) := by
+  induction s with
+  | nil => rfl
+  | cons c s ih =>
+    have hc : (nucIdx c).isSome = true := hs c (by simp)
+    have hs' : IsAcgt s := fun x hx => hs x (by simp [hx])
+    cases h' : nucIdx c with
+    | none => simp [h'] at hc
+    | some j => simp [nucValues, h', ih hs', Except.map]
+
+theorem dnaToNumberInt_acgt (s : List Char) (hs : IsAcgt s) :
+    dnaToNumberInt s = .ok (kmerIdx s) := by
+  simp [dnaToNumberInt, nucValues_acgt s hs, Except.map, kmerIdx, List.foldl_map]
+
+/-- leading-digit split of a k-mer. -/
+theorem kmerIdx_tail_kmerOf (k v : Nat) (h : v < 4 ^ (k + 1)) :
+    kmerIdx (kmerOf (k + 1) v).tail = v % 4 ^ k := by
+  have hl := kmerOf_length (k + 1) v h
+  have hi := kmerIdx_kmerOf (k + 1) v h
+  match hm : kmerOf (k + 1) v with
+  | [] => rw [hm] at hl; simp at hl
+  | c :: t =>
+    rw [hm] at hl hi
+    have hlt : t.length = k := by simpa using hl
+    rw [kmerIdx_cons, hlt] at hi
+    have := kmerIdx_lt t
+    rw [hlt] at this
+    simp only [List.tail_cons]
+    rw [← hi, Nat.mul_add_mod_self_right, Nat.mod_eq_of_lt this]
+
+theorem dropLast_kmerOf (k v : Nat) (h : v < 4 ^ (k + 1)) :
+    (kmerOf (k + 1) v).dropLast = kmerOf k (v / 4) := by
+  rw [kmerOf_succ' k v h]; simp
+
+/-! ## reading accessors ("read-after-build") -/
+
+theorem Acc.row_natCast (a : Acc) (v : Nat) : a.row (v : Int) = a.getD v #[] := by
+  unfold Acc.row
+  have h1 : ¬ ((v : Int) < 0) := by omega
+  by_cases h : v < a.size
+  · have h2 : (0 : Int) ≤ (v : Int) ∧ (v : Int) < (a.size : Int) := by omega
+    simp [h1, h2]
+  · have h2 : ¬ ((0 : Int) ≤ (v : Int) ∧ (v : Int) < (a.size : Int)) := by omega
+    simp [h1, Array.getD, h]
+
+theorem Acc.ent_natCast (a : Acc) (v j : Nat) :
+    a.ent (v : Int) j = (a.getD v #[]).getD j (-1) := by
+  unfold Acc.ent; rw [Acc.row_natCast]
+
+theorem getD_range_map {α} (n : Nat) (f : Nat → α) (v : Nat) (d : α) (h : v < n) :
+    ((Array.range n).map f).getD v d = f v := by
+  simp [Array.getD, h]
+
+theorem Acc.ent_range_map (n : Nat) (f : Nat → Array Int) (v j : Nat) (h : v < n) :
+    Acc.ent ((Array.range n).map f) (v : Int) j = (f v).getD j (-1) := by
+  rw [Acc.ent_natCast, getD_range_map n f v #[] h]
+
+theorem Acc.row_range_map (n : Nat) (f : Nat → Array Int) (v : Nat) (h : v < n) :
+    Acc.row ((Array.range n).map f) (v : Int) = f v := by
+  rw [Acc.row_natCast, getD_range_map n f v #[] h]
+
+theorem Acc.size_setEnt (a : Acc) (v j : Nat) (x : Int) : (a.setEnt v j x).size = a.size := by
+  simp [Acc.setEnt]
+
+theorem getD_setIfInBounds_self {α} (a : Array α) (v : Nat) (x d : α) (h : v < a.size) :
+    (a.setIfInBounds v x).getD v d = x := by
+  simp [Array.getD, h]
+
+theorem getD_setIfInBounds_ne {α} (a : Array α) (v u : Nat) (x d : α) (h : v ≠ u) :
+    (a.setIfInBounds v x).getD u d = a.getD u d := by
+  by_cases hu : u < a.size
+  · simp [Array.getD, hu, h]
+  · simp [Array.getD, hu]
+
+theorem getD_setIfInBounds_oob {α} (a : Array α) (v u : Nat) (x d : α) (h : a.size ≤ v) :
+    (a.setIfInBounds v x).getD u d = a.getD u d := by
+  rw [Array.setIfInBounds_eq_of_size_le h]
+
+/-- row `u` after `setEnt v j x`. -/
+theorem Acc.getD_setEnt (a : Acc) (v j u : Nat) (x : Int) :
+    (a.setEnt v j x).getD u #[] =
+      if u = v then (a.getD v #[]).setIfInBounds j x else a.getD u #[] := by
+  unfold Acc.setEnt
+  by_cases huv : u = v
+  · subst huv
+    by_cases h : u < a.size
+    · simp [getD_setIfInBounds_self _ _ _ _ h]
+    · rw [getD_setIfInBounds_oob _ _ _ _ _ (by omega)]
+      have : a.getD u #[] = #[] := by simp [Array.getD, h]
+      simp [this]
+  · rw [getD_setIfInBounds_ne _ _ _ _ _ (Ne.symm huv)]
+    simp [huv]
+
+/-- same cell. -/
+theorem Acc.ent_setEnt_self (a : Acc) (v j : Nat) (x : Int)
+    (hj : j < (a.getD v #[]).size) : (a.setEnt v j x).ent (v : Int) j = x := by
+  rw [Acc.ent_natCast, Acc.getD_setEnt, if_pos rfl]
+  exact getD_setIfInBounds_self _ _ _ _ hj
+
+/-- other cell. -/
+theorem Acc.ent_setEnt_ne (a : Acc) (v j u i : Nat) (x : Int) (h : u ≠ v ∨ i ≠ j) :
+    (a.setEnt v j x).ent (u : Int) i = a.ent (u : Int) i := by
+  rw [Acc.ent_natCast, Acc.ent_natCast, Acc.getD_setEnt]
+  by_cases huv : u = v
+  · subst huv
+    have hij : i ≠ j := by
+      rcases h with h | h
+      · exact absurd rfl h
+      · exact h
+    simp [getD_setIfInBounds_ne _ _ _ _ _ (Ne.symm hij)]
+  · simp [huv]
+
+/-! ## de Bruijn sub-tables -/
+
+/-- row `v` of an order-`k` de Bruijn sub-table. -/
+def RowOK (k v : Nat) (r : Array Int) : Prop :=
+  r.size = 4 ∧ ∀ j : Nat, j < 4 → r.getD j (-1) = -1 ∨ r.getD j (-1) = ((v * 4 + j) % 4 ^ k : Nat)
+
+theorem wfdb_iff_rowOK (k : Nat) (a : Acc) :
+    WFdB k a ↔ a.size = 4 ^ k ∧ ∀ v : Nat, v < 4 ^ k → RowOK k v (a.getD v #[]) := by
+  unfold WFdB RowOK
+  simp only [Acc.ent_natCast]
+
+theorem rowOK_replicate (k v : Nat) : RowOK k v (Array.replicate 4 (-1)) := by
+  refine ⟨by simp, fun j hj => Or.inl ?_⟩
+  simp [Array.getD, hj]
+
+theorem rowOK_setIfInBounds (k v j : Nat) (r : Array Int) (x : Int) (hr : RowOK k v r)
+    (hx : x = -1 ∨ x = ((v * 4 + j) % 4 ^ k : Nat)) : RowOK k v (r.setIfInBounds j x) := by
+  refine ⟨by simpa using hr.1, fun i hi => ?_⟩
+  by_cases hij : j = i
+  · subst hij
+    rw [getD_setIfInBounds_self _ _ _ _ (by rw [hr.1]; exact hi)]
+    exact hx
+  · rw [getD_setIfInBounds_ne _ _ _ _ _ hij]
+    exact hr.2 i hi
+
+theorem obtainLatters_length (k v : Nat) : (obtainLatters k v).length = 4 := by
+  simp [obtainLatters]
+
+theorem obtainLatters_getElem (k v j : Nat) (hj : j < (obtainLatters k v).length) :
+    (obtainLatters k v)[j] = (v * 4 + j) % 4 ^ k := by
+  simp [obtainLatters]
+
+theorem mem_obtainLatters (k v w : Nat) :
+    w ∈ obtainLatters k v ↔ ∃ j, j < 4 ∧ w = (v * 4 + j) % 4 ^ k := by
+  simp only [obtainLatters, List.mem_map, List.mem_range]
+  constructor
+  · rintro ⟨j, hj, rfl⟩; exact ⟨j, hj, rfl⟩
+  · rintro ⟨j, hj, rfl⟩; exact ⟨j, hj, rfl⟩
+
+theorem mem_obtainFormers (k v u : Nat) :
+    u ∈ obtainFormers k v ↔ ∃ j, j < 4 ∧ u = v / 4 + j * 4 ^ (k - 1) := by
+  simp only [obtainFormers, List.mem_map, List.mem_range]
+  constructor
+  · rintro ⟨j, hj, rfl⟩; exact ⟨j, hj, rfl⟩
+  · rintro ⟨j, hj, rfl⟩; exact ⟨j, hj, rfl⟩
+
+theorem getD_map_toArray {α β} (l : List α) (f : α → β) (j : Nat) (d : β) (hj : j < l.length) :
+    (l.map f).toArray.getD j d = f l[j] := by
+  simp [Array.getD, hj]
+
+/-- a row built from the successor list by keeping some of the successors. -/
+theorem rowOK_latters (k v : Nat) (p : Nat → Bool) :
+    RowOK k v ((obtainLatters k v).map fun w => if p w then Int.ofNat w else -1).toArray := by
+  refine ⟨by simp [obtainLatters], fun j hj => ?_⟩
+  have hj' : j < (obtainLatters k v).length := by rw [obtainLatters_length]; exact hj
+  rw [getD_map_toArray _ _ _ _ hj', obtainLatters_getElem]
+  by_cases hp : p ((v * 4 + j) % 4 ^ k) = true
+  · right; rw [if_pos hp]; rfl
+  · left; rw [if_neg hp]
+
+theorem rowOK_latters_all (k v : Nat) :
+    RowOK k v ((obtainLatters k v).map Int.ofNat).toArray := by
+  have := rowOK_latters k v (fun _ => true)
+  simpa only [reduceIte] using this
+
+theorem wfdb_range_map (k : Nat) (f : Nat → Array Int)
+    (h : ∀ v : Nat, v < 4 ^ k → RowOK k v (f v)) : WFdB k ((Array.range (4 ^ k)).map f) := by
+  rw [wfdb_iff_rowOK]
+  refine ⟨by simp, fun v hv => ?_⟩
+  rw [getD_range_map _ _ _ _ hv]
+  exact h v hv
+
+/-- replacing a whole row by a legal row. -/
+theorem wfdb_setIfInBounds_row (k : Nat) (a : Acc) (v : Nat) (r : Array Int)
+    (h : WFdB k a) (hr : RowOK k v r) : WFdB k (a.setIfInBounds v r) := by
+  rw [wfdb_iff_rowOK] at h ⊢
+  refine ⟨by simpa using h.1, fun u hu => ?_⟩
+  by_cases hvu : v = u
+  · subst hvu
+    rw [getD_setIfInBounds_self _ _ _ _ (by rw [h.1]; exact hu)]
+    exact hr
+  · rw [getD_setIfInBounds_ne _ _ _ _ _ hvu]
+    exact h.2 u hu
+
+/-- writing `-1` or the `j`-th successor into cell `(v, j)`. -/
+theorem wfdb_setEnt (k : Nat) (a : Acc) (v j : Nat) (x : Int) (h : WFdB k a)
+    (hx : x = -1 ∨ x = ((v * 4 + j) % 4 ^ k : Nat)) : WFdB k (a.setEnt v j x) := by
+  by_cases hv : v < 4 ^ k
+  · unfold Acc.setEnt
+    apply wfdb_setIfInBounds_row k a v _ h
+    exact rowOK_setIfInBounds k v j _ x (((wfdb_iff_rowOK k a).1 h).2 v hv) hx
+  · unfold Acc.setEnt
+    rw [Array.setIfInBounds_eq_of_size_le (by rw [h.1]; omega)]
+    exact h
+
+theorem wfdb_replicate (k : Nat) : WFdB k (Array.replicate (4 ^ k) (Array.replicate 4 (-1))) := by
+  rw [wfdb_iff_rowOK]
+  refine ⟨by simp, fun v hv => ?_⟩
+  have : (Array.replicate (4 ^ k) (Array.replicate 4 (-1 : Int))).getD v #[] =
+      Array.replicate 4 (-1) := by simp [Array.getD, hv]
+  rw [this]; exact rowOK_replicate k v
+
+theorem wfdb_complete (k : Nat) : WFdB k (getCompleteAccessor k) :=
+  wfdb_range_map k _ fun v _ => rowOK_latters_all k v
+
+theorem wfdb_induced (k : Nat) (m : Mask) : WFdB k (inducedAccessor k m) := by
+  apply wfdb_range_map
+  intro v _
+  split
+  · exact rowOK_latters k v (fun w => m.getD w false)
+  · exact rowOK_replicate k v
+
+/-! ## loops preserve the invariant -/
+
+theorem foldl_invariant {σ α} (P : σ → Prop) (g : σ → α → σ) (l : List α)
+    (hg : ∀ s, ∀ x ∈ l, P s → P (g s x)) (s : σ) (hs : P s) : P (l.foldl g s) := by
+  induction l generalizing s with
+  | nil => exact hs
+  | cons x xs ih =>
+    rw [List.foldl_cons]
+    exact ih (fun s y hy => hg s y (by simp [hy])) _ (hg s x (by simp) hs)
+
+theorem wfdb_cascade (k f : Nat) (pairs : List (Nat × Nat)) (a : Acc) (h : WFdB k a) :
+    WFdB k (cascade k f pairs a) := by
+  induction f generalizing pairs a with
+  | zero => simpa [cascade] using h
+  | succ f ih =>
+    rw [cascade]
+    split
+    · exact h
+    · apply ih
+      apply foldl_invariant (fun st : Acc × List (Nat × Nat) => WFdB k st.1)
+      · intro st fl _ hst
+        exact wfdb_setEnt k _ _ _ _ hst (Or.inl rfl)
+      · exact h
+
+theorem wfdb_removeVertex (k : Nat) (a : Acc) (u : Nat) (h : WFdB k a) :
+    WFdB k (removeVertex k a u) := by
+  unfold removeVertex
+  exact wfdb_cascade k _ _ _ (wfdb_setIfInBounds_row k a u _ h (rowOK_replicate k u))
+
+theorem wfdb_thresholdOneLoop (k f : Nat) (a : Acc) (r : List Nat × Acc) (h : WFdB k a)
+    (hr : thresholdOneLoop k f a = .ok r) : WFdB k r.2 := by
+  induction f generalizing a with
+  | zero => simp [thresholdOneLoop] at hr
+  | succ f ih =>
+    rw [thresholdOneLoop] at hr
+    simp only at hr
+    split at hr
+    · cases hr
+    · split at hr
+      · cases hr; exact h
+      · refine ih _ ?_ hr
+        exact foldl_invariant (WFdB k) _ _ (fun s u _ hs => wfdb_removeVertex k s u hs) a h
+
+theorem wfdb_connectCodingGraph (k : Nat) (m : Mask) (t : Nat) (r : List Nat × Acc)
+    (h : connectCodingGraph k m t = .ok r) : WFdB k r.2 := by
+  unfold connectCodingGraph at h
+  cases hm : trimLoop k t (4 ^ k + 1) m with
+  | error e => simp [hm, bind, Except.bind] at h
+  | ok m' =>
+    simp only [hm, bind, Except.bind] at h
+    split at h
+    · exact wfdb_thresholdOneLoop k _ _ r (wfdb_induced k m') h
+    · cases h; exact wfdb_induced k m'
+
+theorem wfdb_removeNastyArc (k : Nat) (a : Acc) (lm : LMap) (ins del : Bool) (r : RemoveResult)
+    (hw : WFdB k a) (h : removeNastyArc a lm ins del = .ok r) : WFdB k r.acc := by
+  unfold removeNastyArc at h
+  simp only at h
+  split at h
+  · cases h
+  · split at h
+    · cases h
+    · split at h
+      · cases h; exact wfdb_setEnt k _ _ _ _ hw (Or.inl rfl)
+      · cases h
+
+/-- a shift successor sits in the column given by its last digit. -/
+theorem latter_column (k v w : Nat) (h : w ∈ obtainLatters k v) :
+    (v * 4 + w % 4) % 4 ^ k = w := by
+  rcases (mem_obtainLatters k v w).1 h with ⟨j, hj, rfl⟩
+  cases k with
+  | zero => simp [Nat.mod_one]
+  | succ k =>
+    rw [four_pow_succ, shift_mod _ _ _ hj]
+    have : ((v % 4 ^ k) * 4 + j) % 4 = j := by omega
+    rw [this, shift_mod _ _ _ hj]
+
+theorem wfdb_latterMap_fold (k : Nat) (lm : LMap)
+    (hl : ∀ p ∈ lm, ∀ w ∈ p.2, w ∈ obtainLatters k p.1) (a : Acc) (h : WFdB k a) :
+    WFdB k (lm.foldl (fun acc p => p.2.foldl (fun acc w => acc.setEnt p.1 (w % 4) w) acc) a) := by
+  apply foldl_invariant (WFdB k) _ _ _ a h
+  intro s p hp hs
+  apply foldl_invariant (WFdB k) _ _ _ s hs
+  intro s' w hw hs'
+  apply wfdb_setEnt k _ _ _ _ hs'
+  right
+  rw [latter_column k p.1 w (hl p hp w hw)]
+
+theorem wfdb_latterMapToAccessor (k : Nat) (lm : LMap) (a : Acc)
+    (hl : ∀ p ∈ lm, ∀ w ∈ p.2, w ∈ obtainLatters k p.1)
+    (h : latterMapToAccessor lm k none = .ok a) : WFdB k a := by
+  unfold latterMapToAccessor at h
+  simp only [bind, Except.bind, pure, Except.pure] at h
+  split at h
+  · cases h
+  · cases h
+    exact wfdb_latterMap_fold k lm hl _ (wfdb_replicate k)
+
+/-- a `foldlM` that pushes one row per element (or fails) returns the mapped list. -/
+theorem foldlM_push_eq {ε α β} (c : α → Bool) (g : α → β) (e : ε) (l : List α) (acc a : Array β)
+    (h : l.foldlM (fun acc v => if c v then Except.ok (acc.push (g v)) else Except.error e) acc
+      = .ok a) : a = acc ++ (l.map g).toArray := by
+  induction l generalizing acc with
+  | nil =>
+    simp only [List.foldlM_nil, pure, Except.pure] at h
+    cases h; simp
+  | cons x xs ih =>
+    simp only [List.foldlM_cons, bind, Except.bind] at h
+    by_cases hc : c x = true
+    · simp only [hc, if_true] at h
+      rw [ih _ h]; simp
+    · simp only [hc] at h
+      cases h
+
+theorem wfdb_adjacencyMatrixToAccessor (k : Nat) (mx : Matrix) (a : Acc) (hs : mx.size = 4 ^ k)
+    (h : adjacencyMatrixToAccessor mx = .ok a) : WFdB k a := by
+  unfold adjacencyMatrixToAccessor at h
+  simp only [hs, log4_four_pow] at h
+  have := foldlM_push_eq _ _ _ _ _ _ h
+  subst this
+  rw [wfdb_iff_rowOK]
+  refine ⟨by simp, fun v hv => ?_⟩
+  have : ∀ g : Nat → Array Int,
+      ((#[] : Acc) ++ ((List.range (4 ^ k)).map g).toArray).getD v #[] = g v := by
+    intro g; simp [Array.getD, hv]
+  rw [this]
+  exact rowOK_latters k v _
+
 end Dsw
